@@ -1210,7 +1210,13 @@ Proof.
     split; [intros E; apply Hva in E; congruence|]. rewrite Ws. split; [assumption|]. eauto.
   - (* generic copy *)
     destruct d; try doneS S0.
-    eapply (t_map_copy_loop cf a m0); eauto; exact I.
+    destruct (cf_mapcopy_begin cf); [|eapply (t_map_copy_loop cf a m0); eauto; exact I].
+    rewrite exec_bind in He. destruct (exec ar (map_begin a (length m0)) h) as [o1 h1] eqn:Eb.
+    destruct (t_map_begin a (length m0) tg h ar o1 h1 HI) as (tg1 & S1 & _); [|exact Eb|].
+    { intros v0 m1 Gv Vm1. rewrite Ga in Gv. inversion Gv; subst v0. rewrite Vm in Vm1. inversion Vm1; subst m1. congruence. }
+    destruct o1 as [?|]; [|crashS S1].
+    destruct (t_map_copy_loop cf a m0 tg1 h1 ar o h' (proj1 S1) I He) as (tg2 & S2 & _).
+    exists tg2. split; [eapply step_trans; eauto | destruct o; exact I].
 Qed.
 
 Lemma t_list_assign_node : forall cf a r, triple (a_fref r) (list_assign_node cf a r) tt_post.
